@@ -165,7 +165,7 @@ def q_wrapper(input_kind, p=7, timeout=120):
     t0 = time.time()
     values.set_mul_mode('exact')
     ts = T.TagSpace(sort='real')
-    arr, _ = T.build_array(ts, 'line', [2, 2])
+    arr, _ = T.build_array(ts, 'line', [2, None, 0, 2])      # a missing and an empty element: they contribute nothing to the default extent
     it = ts.install(Interp())
     captured = []
     it.stubs['_distances_from_bounds'] = Stub(lambda b, tb, pp: captured.append((b, tb, pp)) or np.zeros(b.shape[0], dtype=np.int64),
@@ -268,6 +268,7 @@ def replay_wrapper(input_kind, prob, p=7):
     if input_kind == 'none':
         for line in ([0, 0, 4, 4, 1, 1], [3, 1, 3, 5, 3, 2], [1, 5, 9, 5, 3, 5], [3, 1, 3, 1, 3, 1]):
             candidates.append((sg.LineArray([line, line[:4], line[2:]], dtype='float64'), None))
+            candidates.append((sg.LineArray([line, None, line[:4], [], line[2:]], dtype='float64'), None))
     else:
         if input_kind == 'mixed-list':
             vals = [0.0, vals[1], 10.0, vals[3]]
@@ -296,7 +297,11 @@ def replay_wrapper(input_kind, prob, p=7):
             wit['got'] = f'raises {type(e).__name__}: {str(e)[:200]}'
             return True, wit
         changed = (arg is not None) and ([float(x) for x in arg] != [float(x) for x in keep])
-        ref = [float(x) for x in (arr.total_bounds if keep is None else keep)]
+        if keep is None:      # default extent: from the raw coordinates (independent of the library's total_bounds)
+            cs = [c for j in range(len(arr)) if arr[j] is not None for c in arr[j].data.as_py()]
+            ref = [min(cs[0::2]), min(cs[1::2]), max(cs[0::2]), max(cs[1::2])]
+        else:
+            ref = [float(x) for x in keep]
         ref = (ref[0], ref[1], ref[2] + (1.0 if ref[0] == ref[2] else 0.0), ref[3] + (1.0 if ref[1] == ref[3] else 0.0))
         want = _distances_from_bounds(arr.bounds, ref, p)
         wit.update(got=[int(x) for x in got], expected=[int(x) for x in want], argument_after=None if arg is None else [float(x) for x in arg])
